@@ -142,14 +142,44 @@ func goMap(opts [][2]string) map[string]string {
 // construct calls the library's signing constructor for a shape with the
 // private key matching the contained identity.
 func construct(sh *engine.Shape) (*constructed, error) {
+	c, _, err := constructWithValue(sh)
+	return c, err
+}
+
+// Construct builds a value with the library's signing constructor and returns
+// it (pointer) for worlds that need the value itself (C18). ok=false when the
+// constructor refused.
+func Construct(sh *engine.Shape) (val any, ok bool) {
+	c, v, err := constructWithValue(sh)
+	if err != nil || c == nil || c.skipped != "" || v == nil {
+		return nil, false
+	}
+	return v, true
+}
+
+// ConstructWithBytes is Construct plus the serialisation of the built value.
+func ConstructWithBytes(sh *engine.Shape) (val any, b []byte, ok bool) {
+	c, v, err := constructWithValue(sh)
+	if err != nil || c == nil || c.skipped != "" || v == nil {
+		return nil, nil, false
+	}
+	b, err = c.bytes()
+	if err != nil {
+		return nil, nil, false
+	}
+	return v, b, true
+}
+
+func constructWithValue(sh *engine.Shape) (*constructed, any, error) {
 	id := refmodel.NewIdentity(sh.IdentSeed, sh.Sig, sh.Crypto, certOf(sh), sh.Excess)
 	c := &constructed{kind: sh.Kind, idSig: id.Sig, idKey: id.Key.Pub}
+	var val any
 	switch sh.Kind {
 	case "rinfo":
 		ri, _, err := router_identity.ReadRouterIdentity(append([]byte(nil), id.Bytes...))
 		if err != nil {
 			c.skipped = "identity refused by ReadRouterIdentity"
-			return c, nil
+			return c, val, nil
 		}
 		var addrs []*router_address.RouterAddress
 		for i := range sh.Sub {
@@ -157,19 +187,19 @@ func construct(sh *engine.Shape) (*constructed, error) {
 			ra, err := router_address.NewRouterAddress(uint8(a.U[0]), time.Time{}, a.Str, goMap(a.Opts))
 			if err != nil {
 				c.skipped = "address refused by NewRouterAddress"
-				return c, nil
+				return c, val, nil
 			}
 			addrs = append(addrs, ra)
 		}
 		pk, err := signingPrivateKey(id.Key)
 		if err != nil {
 			c.skipped = err.Error()
-			return c, nil
+			return c, val, nil
 		}
 		info, err := router_info.NewRouterInfo(ri, time.UnixMilli(int64(sh.U[0])), addrs, goMap(sh.Opts), pk, id.Sig)
 		if err != nil {
 			c.skipped = "NewRouterInfo: " + short(err)
-			return c, nil
+			return c, val, nil
 		}
 		c.verify = func() error {
 			ok, err := info.VerifySignature()
@@ -182,11 +212,12 @@ func construct(sh *engine.Shape) (*constructed, error) {
 			return nil
 		}
 		c.bytes = info.Bytes
+		val = info
 	case "leaseset":
 		d, err := libDestination(id)
 		if err != nil {
 			c.skipped = "destination refused"
-			return c, nil
+			return c, val, nil
 		}
 		ek := refmodel.Expand(sh.Seed, "c06-elg", 256)
 		ek[0] = 0x01 | (ek[0] & 0x7F)
@@ -195,7 +226,7 @@ func construct(sh *engine.Shape) (*constructed, error) {
 		rk, err := d.SigningPublicKey()
 		if err != nil {
 			c.skipped = "no signing key"
-			return c, nil
+			return c, val, nil
 		}
 		var ls []lease.Lease
 		for i := 0; i < sh.N; i++ {
@@ -211,20 +242,21 @@ func construct(sh *engine.Shape) (*constructed, error) {
 		pk, err := signingPrivateKey(id.Key)
 		if err != nil {
 			c.skipped = err.Error()
-			return c, nil
+			return c, val, nil
 		}
 		set, err := lease_set.NewLeaseSet(d, encKey, rk, ls, pk)
 		if err != nil {
 			c.skipped = "NewLeaseSet: " + short(err)
-			return c, nil
+			return c, val, nil
 		}
 		c.verify = set.Verify
 		c.bytes = set.Bytes
+		val = set
 	case "ls2":
 		d, err := libDestination(id)
 		if err != nil {
 			c.skipped = "destination refused"
-			return c, nil
+			return c, val, nil
 		}
 		var off *offline_signature.OfflineSignature
 		signKey := id.Key
@@ -233,12 +265,12 @@ func construct(sh *engine.Shape) (*constructed, error) {
 			edp := id.Key.Ed25519Private()
 			if edp == nil {
 				c.skipped = "CreateOfflineSignature takes an Ed25519 destination key only"
-				return c, nil
+				return c, val, nil
 			}
 			o, err := offline_signature.CreateOfflineSignature(uint32(sh.Offline.Expires), uint16(sh.Offline.Transient), tk.Pub, edp, uint16(id.Sig))
 			if err != nil {
 				c.skipped = "CreateOfflineSignature: " + short(err)
-				return c, nil
+				return c, val, nil
 			}
 			off = &o
 			signKey = tk
@@ -248,7 +280,7 @@ func construct(sh *engine.Shape) (*constructed, error) {
 			m, err := data.GoMapToMapping(goMap(sh.Opts))
 			if err != nil {
 				c.skipped = "options refused"
-				return c, nil
+				return c, val, nil
 			}
 			opts = *m
 		}
@@ -271,10 +303,11 @@ func construct(sh *engine.Shape) (*constructed, error) {
 		ls, err := lease_set2.NewLeaseSet2(d, uint32(sh.U[0]), uint16(sh.U[1]), flags, off, opts, keys, leases2(sh), sk)
 		if err != nil {
 			c.skipped = "NewLeaseSet2: " + short(err)
-			return c, nil
+			return c, val, nil
 		}
 		c.verify = ls.Verify
 		c.bytes = ls.Bytes
+		val = &ls
 	case "els":
 		bk := refmodel.NewSignKey(sh.IdentSeed, sh.Sig)
 		c.idSig, c.idKey = sh.Sig, bk.Pub
@@ -285,12 +318,12 @@ func construct(sh *engine.Shape) (*constructed, error) {
 			edp := bk.Ed25519Private()
 			if edp == nil {
 				c.skipped = "CreateOfflineSignature takes an Ed25519 key only"
-				return c, nil
+				return c, val, nil
 			}
 			o, err := offline_signature.CreateOfflineSignature(uint32(sh.Offline.Expires), uint16(sh.Offline.Transient), tk.Pub, edp, uint16(sh.Sig))
 			if err != nil {
 				c.skipped = "CreateOfflineSignature: " + short(err)
-				return c, nil
+				return c, val, nil
 			}
 			off = &o
 			signKey = tk
@@ -298,7 +331,7 @@ func construct(sh *engine.Shape) (*constructed, error) {
 		edp := signKey.Ed25519Private()
 		if edp == nil {
 			c.skipped = "NewEncryptedLeaseSet signs with Ed25519 keys only"
-			return c, nil
+			return c, val, nil
 		}
 		var sk any
 		switch sh.Seed % 4 {
@@ -322,21 +355,22 @@ func construct(sh *engine.Shape) (*constructed, error) {
 		els, err := encrypted_leaseset.NewEncryptedLeaseSet(uint16(sh.Sig), append([]byte(nil), bk.Pub...), uint32(sh.U[0]), uint16(sh.U[1]), flags, off, inner, sk)
 		if err != nil {
 			c.skipped = "NewEncryptedLeaseSet: " + short(err)
-			return c, nil
+			return c, val, nil
 		}
 		c.verify = els.Verify
 		c.bytes = els.Bytes
+		val = els
 	case "offsig":
 		tk := refmodel.NewSignKey(sh.Offline.Seed, sh.Offline.Transient)
 		edp := id.Key.Ed25519Private()
 		if edp == nil {
 			c.skipped = "CreateOfflineSignature takes an Ed25519 key only"
-			return c, nil
+			return c, val, nil
 		}
 		o, err := offline_signature.CreateOfflineSignature(uint32(sh.Offline.Expires), uint16(sh.Offline.Transient), tk.Pub, edp, uint16(id.Sig))
 		if err != nil {
 			c.skipped = "CreateOfflineSignature: " + short(err)
-			return c, nil
+			return c, val, nil
 		}
 		key := id.Key.Pub
 		c.verify = func() error {
@@ -350,10 +384,11 @@ func construct(sh *engine.Shape) (*constructed, error) {
 			return nil
 		}
 		c.bytes = func() ([]byte, error) { return o.Bytes(), nil }
+		val = &o
 	default:
-		return nil, fmt.Errorf("no constructor for %s", sh.Kind)
+		return nil, nil, fmt.Errorf("no constructor for %s", sh.Kind)
 	}
-	return c, nil
+	return c, val, nil
 }
 
 func certOf(sh *engine.Shape) string {
